@@ -92,7 +92,7 @@ def _run_model(wd, which, cases, impl=None, jobs=14):
     n = len(cases)
     if n == 0:
         return []
-    jobs = max(1, min(jobs, (n + 49) // 50))
+    jobs = max(1, min(jobs, (n + 7) // 8))
     chunks = [(i * n // jobs, (i + 1) * n // jobs) for i in range(jobs)]
     procs = []
     for k, (a, b) in enumerate(chunks):
